@@ -250,3 +250,5 @@ func e2eWorkerMain() {
 		}
 	}
 }
+
+func init() { registerWorker("e2eworker", e2eWorkerMain) }
